@@ -455,15 +455,14 @@ def _check_cm(case, col, tag, want_classes, want_mats, lead, fails, exact):
                 if not _close(v, w, exact, total):
                     bad(f"per-class/{name}", f"{name}()[{j}] = {v}, want {w}; {where}")
             defs = _rates(ea, eb, ec, ed)
-            # float matrices: TN_j = total - (TP + FN + FP) is formed by subtraction; when it is exactly 0 the float
-            # result may be +-1 ulp of the total instead, which flips NaN-ness / the sign of the TN-based rates
-            pre = "float-tn-cancellation/" if (not exact and ed == 0 and d != 0) else ""
             for name in R_NAMES:
                 base = BASE.get(name, name)
                 num, den = defs[base]
                 v = F(col["per_class"][name]["vals"][k * N + j])
+                if v is not None and not (0 <= v <= 1):
+                    bad(f"per-class-range/{name}", f"{name}()[{j}] = {float(v)!r} outside [0,1]; {where}")
                 if not _rate_ok(v, num, den, exact, base in DIRECT, total):
-                    bad(f"{pre}per-class/{name}", f"{name}()[{j}] = {None if v is None else float(v)!r}, want {num}/{den} "
+                    bad(f"per-class/{name}", f"{name}()[{j}] = {None if v is None else float(v)!r}, want {num}/{den} "
                         f"(one-vs-all TN_j = {float(d)!r}, exactly {ed}); {where}")
         acc = F(col["accuracy"]["vals"][k])
         if not _rate_ok(acc, trace, total, exact, True, total):
@@ -502,12 +501,6 @@ def _check_equivariance(col, colp, sigma, lead, fails, exact):
                     return
     ova, ovap = [F(x) for x in col["ova"]["vals"]], [F(x) for x in colp["ova"]["vals"]]
 
-    def cancels(k, a):
-        """exact TN of the class is 0 but one of the two float computations of it is not"""
-        j = sigma[a]
-        tn_exact = sum(sum(row) for row in M[k]) - sum(M[k][j]) - sum(M[k][i][j] for i in range(N)) + M[k][j][j]
-        return (not exact) and tn_exact == 0 and (ova[(k * N + j) * 4 + 3] != 0 or ovap[(k * N + a) * 4 + 3] != 0)
-
     def cond(k, j):
         """population / smallest non-zero margin of the class: how much an absolute error of an ulp of the population
         is amplified in its rates"""
@@ -528,8 +521,7 @@ def _check_equivariance(col, colp, sigma, lead, fails, exact):
                     ok = (x is None and y is None) or (x is not None and y is not None and
                                                        (x == y if exact else abs(x - y) <= Fraction(1, 2 ** 44) * max(1, abs(y)) * cond(k, sigma[a])))
                     if not ok:
-                        pre = "float-tn-cancellation/" if cancels(k, a) else ""
-                        fails.append((f"C05/{pre}equivariance/{name}", f"{name}() of the class-permuted matrix at position {a} is "
+                        fails.append((f"C05/equivariance/{name}", f"{name}() of the class-permuted matrix at position {a} is "
                                       f"{fl(vp[(k * N + a) * w + t])!r}, the original at position {sigma[a]} is "
                                       f"{fl(v[(k * N + sigma[a]) * w + t])!r} (sigma = {sigma}, one-vs-all TN = "
                                       f"{float(ovap[(k * N + a) * 4 + 3])!r} resp. {float(ova[(k * N + sigma[a]) * 4 + 3])!r}, "
